@@ -118,7 +118,14 @@ class Checker(C.BaseChecker):
                 fit_lv = sorted({x for x, m in zip(lv, fit_mask) if m and x is not None})
                 if not fit_lv:
                     continue
-                absorbed, act = fit_lv[0], fit_lv[1:]
+                # which observed level is absorbed by the intercept is the implementation's choice: read it off the result
+                got_act = [c[len(fe) + 1:] for c in cap["active_features"] if c.startswith(fe + "_") and c[len(fe) + 1:] in fit_lv]
+                missing_lv = [x for x in fit_lv if x not in got_act]
+                if len(missing_lv) != 1:
+                    out.append(self.v("absorbed_levels", f"fixed effect {fe}: observed levels {fit_lv}, fitted dummies for {got_act}: exactly one observed level must be absorbed by the intercept",
+                                      n_absorbed=len(missing_lv)))
+                    continue
+                absorbed, act = missing_lv[0], [x for x in fit_lv if x != missing_lv[0]]
                 exp = [x for x in all_lv if x != absorbed]
                 per_fe[fe] = dict(levels=lv, absorbed=absorbed, active=act, expanded=exp)
                 expanded += [f"{fe}_{x}" for x in exp]
@@ -131,15 +138,21 @@ class Checker(C.BaseChecker):
             want_active = custom_sort(base + active)
             caller = "bootstrap/strata" if not kw["center_features"] else "conformal"
             flags = dict(n_fixed_effects=len(fes), pooled=pooled_any, unseen_level=unseen_any)
-            if list(X.columns) != want_complete or cap["complete_features"] != want_complete:
-                out.append(self.v("complete_columns", f"prepared matrix has columns {list(X.columns)}, reference model expects {want_complete}", **flags))
+            if sorted(X.columns) != sorted(want_complete) or list(X.columns) != list(cap["complete_features"]):
+                out.append(self.v("complete_columns", f"prepared matrix has columns {list(X.columns)}, reference model expects the set {sorted(want_complete)}", **flags))
                 continue
-            if cap["active_features"] != want_active:
-                out.append(self.v("active_columns", f"active (fitted) columns {cap['active_features']}, reference model expects {want_active} "
+            if sorted(cap["active_features"]) != sorted(want_active):
+                out.append(self.v("active_columns", f"active (fitted) columns {cap['active_features']}, reference model expects the set {sorted(want_active)} "
                                                     f"(one observed level per fixed effect absorbed: {[(fe, d['absorbed']) for fe, d in per_fe.items()]})", **flags))
                 continue
-            if add_i and want_active[0] != "intercept":
-                out.append(self.v("intercept_not_first", f"{want_active[:3]}"))
+            # the order the statement fixes: intercept first, baseline-margin terms next (the rest may come in any order, as long
+            # as the fit and the prediction matrices agree -- checked below)
+            for cols, nm in ((list(X.columns), "prepared"), (list(cap["active_features"]), "fitted")):
+                n_m = sum(1 for c in cols if c.startswith("baseline_normalized_margin"))
+                head = cols[: (1 if add_i else 0) + n_m]
+                if (add_i and (not cols or cols[0] != "intercept")) or any(not c.startswith("baseline_normalized_margin") for c in head[(1 if add_i else 0):]):
+                    out.append(self.v("column_order", f"{nm} matrix starts with {cols[:4]}: the intercept must come first and the baseline-margin terms next", **flags))
+            want_active = list(cap["active_features"])
             # cell values of the dummies; non-constant on the fitting rows; exactly one absorbed level
             for fe, d in per_fe.items():
                 for x in d["expanded"]:
